@@ -6,7 +6,7 @@ from . import common as K
 
 PROP = "C10"
 RULE = ("cases = generated .sym files (MODULE line, then any number and order of FILE / INLINE_ORIGIN / FUNC (with line records ascending and INLINE records) / PUBLIC / STACK / INFO / junk records; "
-        "LF, CRLF and \\r\\r\\n endings, with and without a final newline, very long lines, FILE / INLINE_ORIGIN records inside FUNC blocks, unsorted and duplicate indices) "
+        "hexadecimal fields in lower and upper case, LF, CRLF and \\r\\r\\n endings, with and without a final newline, very long lines, FILE / INLINE_ORIGIN records inside FUNC blocks, unsorted and duplicate indices) "
         "each fed to BreakpadIndexCreator as: one chunk, all 1-byte chunks, cut after every '\\r', cut after every '\\n', and random partitions; "
         "lookups at every symbol start, start+size-1, start+size, every line/inline boundary +-1, below the first and above the last symbol. "
         "Observed: index bytes identical across partitions (EQ), parse->serialize reproduces them (RT), lookups with a stored index equal self-indexed lookups (LKEQ), the lookup results. "
@@ -122,6 +122,24 @@ def _gen_file(rng, wellformed):
     if rng.chance(1, 10):
         lines.append("FILE 77 " + "L" * rng.choice([2000, 5000]))
     lookups += [addr, addr + 5, 0xFFFFFFFF]
+    if rng.chance(1, 4):
+        # hexadecimal fields in upper case (Breakpad's own reader accepts both cases; dump_syms happens to write lower case)
+        mode = rng.choice(["all", "some"])
+
+        def up(tok):
+            return tok.upper() if (mode == "all" or rng.chance(1, 2)) else tok
+        for li, l in enumerate(lines):
+            f = l.split(" ")
+            if f[0] in ("FUNC", "PUBLIC") and len(f) > 3:
+                k0 = 2 if f[1] == "m" else 1
+                n = 3 if f[0] == "FUNC" else 2
+                for k in range(k0, min(k0 + n, len(f) - 1)):
+                    f[k] = up(f[k])
+                lines[li] = " ".join(f)
+            elif f[0] == "INLINE" and len(f) > 5:
+                lines[li] = " ".join(f[:5] + [up(x) for x in f[5:]])
+            elif len(f) == 4 and f[0] and all(c in "0123456789abcdef" for c in f[0]):
+                lines[li] = " ".join([up(f[0]), up(f[1])] + f[2:])
     out = ""
     for i, l in enumerate(lines):
         e = eol if not mixed else rng.choice(["\n", "\r\n"])
